@@ -49,7 +49,7 @@ func r12e(c *core.Ctx) {
 	if !ok {
 		return
 	}
-	endExpr := "(len(" + fn.Params[0].Name() + ".Additionals) - 1)"
+	endExpr := "(len(" + core.Expr(fn.Params[0]) + ".Additionals) - 1)"
 	li := copyLoad.X.(*ssa.IndexAddr)
 	c.Check(core.Expr(li.Index) == endExpr && core.Expr(clearStore.Addr.(*ssa.IndexAddr).Index) == endExpr,
 		"swap-remove-last", copyStore.Pos(), fn, "the record moved into the freed slot and the slot cleared are both the last one (len-1)", core.Expr(li.Index)+" / "+core.Expr(clearStore.Addr.(*ssa.IndexAddr).Index))
